@@ -68,6 +68,16 @@ bool ref_solve(const Dense &A, const std::vector<cld> &B, int nrhs, std::vector<
     if (!gepp(F, piv)) return false;
     X = B;
     for (int j = 0; j < nrhs; ++j) lu_solve(F, piv, X.data() + (size_t)j * n);
+    // fixed-precision refinement in long double: makes the reference componentwise accurate even when the
+    // normwise condition number is large (the library's error bounds are componentwise)
+    std::vector<cld> r(n);
+    for (int it = 0; it < 3; ++it)
+        for (int j = 0; j < nrhs; ++j) {
+            cld *x = X.data() + (size_t)j * n; const cld *b = B.data() + (size_t)j * n;
+            for (int i = 0; i < n; ++i) { cld s = b[i]; for (int k = 0; k < n; ++k) s -= A.at(i, k) * x[k]; r[i] = s; }
+            lu_solve(F, piv, r.data());
+            for (int i = 0; i < n; ++i) x[i] += r[i];
+        }
     return true;
 }
 
@@ -274,17 +284,19 @@ void check_solve(const Dense &Aeff, bool etrans, const std::vector<int> &perm_r,
     }
 }
 
-std::vector<ld> true_berr(const Dense &A, const std::vector<cld> &B, const std::vector<cld> &X, int nrhs) {
+std::vector<ld> true_berr(const Dense &A, const std::vector<cld> &B, const std::vector<cld> &X, int nrhs, bool use_abs1) {
+    // use_abs1: measure complex magnitudes by |re|+|im| (the LAPACK CABS1 convention the library's berr is defined with)
     int n = A.n; std::vector<ld> w(nrhs, 0);
+    auto mag = [&](cld v) { return use_abs1 ? abs1_(v) : absl_(v); };
     for (int c = 0; c < nrhs; ++c) {
         const cld *x = X.data() + (size_t)c * n, *b = B.data() + (size_t)c * n;
         for (int i = 0; i < n; ++i) {
-            cld r = b[i]; ld den = absl_(b[i]);
+            cld r = b[i]; ld den = mag(b[i]);
             for (int j = 0; j < n; ++j) {
                 cld a = A.at(i, j);
-                r -= a * x[j]; den += absl_(a) * absl_(x[j]);
+                r -= a * x[j]; den += mag(a) * mag(x[j]);
             }
-            ld v = absl_(r);
+            ld v = mag(r);
             if (den > 0) w[c] = std::max(w[c], v / den);
             else if (v > 0) w[c] = INFINITY;
         }
@@ -308,4 +320,37 @@ long first_struct_deficient(const Mat &M, const std::vector<int> &col_order) {
     };
     for (int pos = 0; pos < n; ++pos) if (!aug(pos, pos)) return pos + 1;
     return 0;
+}
+
+long first_symbolic_empty(const Mat &M, const std::vector<int> &col_order, const std::vector<int> &perm_r) {
+    int n = M.n;
+    std::vector<int> prow(n, -1);
+    for (int r = 0; r < n; ++r) { int k = perm_r[r]; if (k >= 0 && k < n && prow[k] < 0) prow[k] = r; }
+    std::vector<std::vector<int>> Ls(n);          // rows of column k strictly below its pivot (structure of L(:,k))
+    std::vector<int> pivoted_at(n, -1);           // row -> position at which it became a pivot
+    std::vector<int> mark(n, -1);
+    for (int j = 0; j < n; ++j) {
+        int c = col_order[j];
+        std::vector<int> st;
+        for (int k = M.colptr[c]; k < M.colptr[c + 1]; ++k) if (mark[M.rowind[k]] != j) { mark[M.rowind[k]] = j; st.push_back(M.rowind[k]); }
+        // apply earlier columns in order: column k contributes if its pivot row is in the structure
+        // (process in increasing k so that fill from k can trigger later columns)
+        std::vector<char> inst(n, 0); for (int r : st) inst[r] = 1;
+        for (int k = 0; k < j; ++k) {
+            int pr = prow[k];
+            if (pr < 0) return -1;
+            if (!inst[pr]) continue;
+            for (int r : Ls[k]) if (!inst[r]) { inst[r] = 1; st.push_back(r); }
+        }
+        std::vector<int> cand;
+        for (int r : st) if (pivoted_at[r] < 0) cand.push_back(r);
+        if (cand.empty()) return j;
+        int pr = prow[j];
+        if (pr < 0 || pivoted_at[pr] >= 0) return -1;       // library's choice unusable from here on
+        bool incand = false; for (int r : cand) if (r == pr) incand = true;
+        if (!incand) return -1;                              // pivot row outside the symbolic structure (supernode union): stop
+        pivoted_at[pr] = j;
+        for (int r : cand) if (r != pr) Ls[j].push_back(r);
+    }
+    return -1;
 }
